@@ -39,7 +39,7 @@ CLAIM = {
             "(R14.5) nests file: 6 tab separated columns, column -> Nest field table, required columns, enclosing method absent "
             "iff name or descriptor column empty; (R14.6) in nest_jar every class written passes attribute synthesis before "
             "renaming, renaming and entry renaming happen exactly under the remap flag with the remapper built from the rename "
-            "table, created classes are emitted; (R14.7) the public wrappers forward to the same-named implementation.",
+            "table, created classes are emitted; (R14.7) the public wrappers forward to the same-named implementation. Premises evaluated with it: C07 R07.1-3 (reference traversal of dukebox::remap), C06 R06.1/R06.4.",
     "note": "Not decided: the jar/mappings agreement as a relation over all concrete tables, jars and mappings (order dependence of the "
             "filter on the table order, cyclic tables, termination), that references inside classes are rewritten (C07), the "
             "behaviour of ARemapper::map_class / map_*_desc (C06), the second-namespace names after undo (the dst post-processing is "
